@@ -145,6 +145,8 @@ def run(chk):
     check_cases(chk, codec.threshold_cases(chk))
     codec.check_inplace(chk, "C06", 200 if chk.tier == "quick" else 3000)
     codec.check_layouts(chk, "C06", 240 if chk.tier == "quick" else 3000)
+    codec.check_trimmed(chk, "C06", 96 if chk.tier == "quick" else 1200)
+    codec.check_stray_attributes(chk, "C06", 30 if chk.tier == "quick" else 400)
     check_noncanonical(chk)
     check_capture(chk)
     check_container_bytes(chk)
